@@ -44,4 +44,20 @@ theorem documented_classes :
     lex ['@'] = .ok ⟨[.Error], [0, 1]⟩ := by
   refine ⟨?_, ?_, ?_, ?_, ?_, ?_, ?_, ?_, ?_⟩ <;> exact isOk_iff.mp (by decide +kernel)
 
+/-- the documented shape of a float literal (the comment above the number rules of `tokenizer.txt`:
+every digit group starts with a DIGIT, also the one of the exponent): an exponent is part of the
+literal only if a digit follows the `e` / sign; `1.5e_` is the float `1.5` and the identifier `e_`
+(seeded change C22_3 let the exponent group start with `_`, so `1.5e_` became one Float token that
+is not a float). -/
+theorem documented_float_shape :
+    lex ['1', '.', '5', 'e', '3'] = .ok ⟨[.Float], [0, 5]⟩ ∧
+    lex ['1', '.', '5', 'e', '+', '3'] = .ok ⟨[.Float], [0, 6]⟩ ∧
+    lex ['1', '_', '0', '.', '2', '_', '5', 'e', '1', '_', '0'] = .ok ⟨[.Float], [0, 11]⟩ ∧
+    lex ['1', '.', '5', 'e', '_'] = .ok ⟨[.Float, .Ident], [0, 3, 5]⟩ ∧
+    lex ['1', '.', '5', 'e', '_', '3'] = .ok ⟨[.Float, .Ident], [0, 3, 6]⟩ ∧
+    lex ['.', '1', 'e', '_'] = .ok ⟨[.Float, .Ident], [0, 2, 4]⟩ ∧
+    lex ['1', '.', '5', 'e', '+', '_'] = .ok ⟨[.Float, .Ident, .Plus, .Ident], [0, 3, 4, 5, 6]⟩ ∧
+    lex ['1', '.', '5', 'e'] = .ok ⟨[.Float, .Ident], [0, 3, 4]⟩ := by
+  refine ⟨?_, ?_, ?_, ?_, ?_, ?_, ?_, ?_⟩ <;> exact isOk_iff.mp (by decide +kernel)
+
 end CapyV.C22Doc
